@@ -1,7 +1,7 @@
 (* Properties/C16.v — Parsing is zero-copy and allocation-free in steady state.
    Only statements, each closed by [exact] of a lemma proved in Proofs/ParseAlias.v. *)
 From PV Require Import Base.Prelude Base.Slice Model.Parse Spec.RFC Model.ParseKnown Model.ParseAlias Model.ParseAlloc
-  Proofs.Parse Proofs.ParseAcc Proofs.ParseAlias.
+  Proofs.Parse Proofs.ParseAcc Proofs.ParseAlias Proofs.ParseRef Proofs.ParseRefEq.
 Open Scope N_scope.
 
 (* ---- views alias the caller's buffer, none extends beyond the frame ------------------------------ *)
@@ -15,6 +15,16 @@ Theorem C16_views_are_subslices : forall c s f w,
   sub_view s (view_off f w) (view_get s f w).
 Proof. exact views_are_subslices. Qed.
 Print Assumptions C16_views_are_subslices.
+
+(* The offsets are the decoded ones: wherever Parse and the reference decoder are proved equal (outside the
+   classes recorded for C02) the views sit at the offsets the reference decoder computes. *)
+Theorem C16_views_at_decoded_offsets : forall c s f,
+  wf s -> bytes_ok (view s) -> N.of_nat (len s) < 65536 -> known_C02 (view s) = None -> parse c s = Ok f ->
+  exists r, ref_decode (view s) = ROk r /\
+    r_ip4 r = opt_off (view_off f V4) /\ r_ip6 r = opt_off (view_off f V6) /\
+    r_udp r = opt_off (view_off f VU) /\ r_tcp r = opt_off (view_off f VT) /\ r_pay r = view_off f VP.
+Proof. exact views_at_ref_offsets. Qed.
+Print Assumptions C16_views_at_decoded_offsets.
 
 (* Write-through, both directions, for any view position [off], length [n] and index [i] inside it:
    (1) view[i] := v changes the buffer at off+i and nowhere else; *)
